@@ -7,6 +7,8 @@ package main
 import (
 	"context"
 	"fmt"
+	"os"
+	"path/filepath"
 	"time"
 
 	"github.com/cube2222/octosql/execution"
@@ -65,7 +67,18 @@ func (n *node) Run(ctx execution.ExecutionContext, produce execution.ProduceFn, 
 	return nil
 }
 
+// The archive ships lib/marker.txt next to the executable; a version directory without it is incomplete.
+const libMarker = "octosql-crashplugin-lib v1\n"
+
 func main() {
+	exe, err := os.Executable()
+	if err == nil {
+		b, rerr := os.ReadFile(filepath.Join(filepath.Dir(exe), "lib", "marker.txt"))
+		if rerr != nil || string(b) != libMarker {
+			fmt.Fprintf(os.Stderr, "crashplugin %s: installation incomplete: lib/marker.txt missing or damaged (%v)\n", Version, rerr)
+			os.Exit(3)
+		}
+	}
 	plugins.Run(func(ctx context.Context, configDecoder plugins.ConfigDecoder) (physical.Database, error) {
 		return &database{}, nil
 	})
